@@ -1,6 +1,7 @@
 package props
 
 import (
+	"sync/atomic"
 	"bytes"
 	"context"
 	"encoding/binary"
@@ -200,6 +201,18 @@ func saveRound(P *util.MerklePatriciaTrie, pndb *util.PNodeDB, rd rRound) (newRo
 	if r := P.GetRoot(); len(r) > 0 {
 		_, _ = pndb.GetNode(r)
 	}
+	if rd.version%3 == 2 {
+		// the block's changes are first written to a side store (a copy of the block's state changes kept elsewhere) and
+		// then to the state store: saving reads the pending set, it does not consume it - both targets must be complete
+		side := util.NewMemoryNodeDB()
+		if serr := P.SaveChanges(context.Background(), side, false); serr != nil {
+			return nil, nil, fmt.Errorf("save into a side store: %w", serr)
+		}
+		if missing, merr := lab.NewMPT(util.NewLevelNodeDB(side, pndb, false), rd.version, P.GetRoot()).HasMissingNodes(context.Background()); merr != nil || missing {
+			return nil, nil, fmt.Errorf("the pending set saved into a side store does not complete the state store: HasMissingNodes = %v, %v", missing, merr)
+		}
+		atomic.AddInt64(&sideSaves, 1)
+	}
 	if serr := P.SaveChanges(context.Background(), pndb, false); serr != nil {
 		return nil, nil, fmt.Errorf("save: %w", serr)
 	}
@@ -216,6 +229,8 @@ func saveRound(P *util.MerklePatriciaTrie, pndb *util.PNodeDB, rd rRound) (newRo
 	}
 	return P.GetRoot(), dead, nil
 }
+
+var sideSaves int64 // saves that went to a side store first (per worker process; reported by the checks that use rounds)
 
 var errSameObjectRead = errors.New("the root just saved is not completely readable through the store object it was saved through")
 
@@ -448,6 +463,7 @@ func runC04(c *fw.Ctx) {
 		W := ctl.Writes() - w0
 		c.Max("save_stream_writes", W)
 		c.Count("rounds", 1)
+		c.Count("saves_preceded_by_a_save_into_a_side_store", atomic.SwapInt64(&sideSaves, 0))
 		saved = append(saved, rSaved{version: v, root: append([]byte(nil), newRoot...), model: lab.CopyContent(next), dead: dead})
 		// completeness of every retained root on a re-opened store
 		pndb.Close()
@@ -697,6 +713,7 @@ func runC05(c *fw.Ctx) {
 			return
 		}
 		c.Count("rounds", 1)
+		c.Count("saves_preceded_by_a_save_into_a_side_store", atomic.SwapInt64(&sideSaves, 0))
 		c.Count("dead_nodes_reported", int64(len(dead)))
 		saved = append(saved, rSaved{version: v, root: append([]byte(nil), newRoot...), model: lab.CopyContent(next), dead: dead})
 		root, cur = newRoot, next
@@ -905,7 +922,7 @@ func init() {
 			return 2000
 		},
 		Run:        runC04,
-		Floors:     map[string]int64{"histories": 1500, "long_lived_trie_histories": 250, "values_at_the_size_limit_saved_and_reread": 4, "rounds_on_a_long_lived_trie": 1200, "rounds": 9000, "crash_points": 30000, "roots_reread": 30000, "prunes": 1000, "recreate_same_txn": 1000, "recreate_from_graveyard": 1000, "max:save_stream_writes": 2, "fat_rounds": 30, "same_object_save_retries": 15000, "single_refused_writes": 15000},
+		Floors:     map[string]int64{"saves_preceded_by_a_save_into_a_side_store": 10000, "rounds_that_only_remove_or_put_back_one_path": 600, "histories": 1500, "long_lived_trie_histories": 250, "values_at_the_size_limit_saved_and_reread": 4, "rounds_on_a_long_lived_trie": 1200, "rounds": 9000, "crash_points": 30000, "roots_reread": 30000, "prunes": 1000, "recreate_same_txn": 1000, "recreate_from_graveyard": 1000, "max:save_stream_writes": 2, "fat_rounds": 30, "same_object_save_retries": 15000, "single_refused_writes": 15000},
 		Exhaustive: nil,
 		Assumptions: []string{
 			"the store is modelled as a sorted KV store with atomic write batches and process-crash durability of completed writes (wo.SetSync(false)); OS-crash loss of unsynced WAL is out of scope",
